@@ -1032,6 +1032,14 @@ fn main() {
                 None => println!("picked=none"),
             }
         }
+        // representative_iterators @level files... : how many iterators does a version with these files hand to a scan?
+        "representative_iterators" => {
+            let lv = levels(&a[1..]);
+            match v::representative_iterator_count(opts(), &lv) {
+                Some(n) => println!("iterators={}", n),
+                None => println!("iterators=error"),
+            }
+        }
         "vs_recover" => {
             // a database is created, written and closed; a fresh version set recovers from its files
             use raindb::WriteOptions;
